@@ -543,10 +543,15 @@ class NPlatePerCellLineSmoother(RetrospectivePlateSmoother):
         for plate in screen.plates:
             plate_counts[self._get_plate_sample_id(plate)] += 1
 
+        samples_to_drop = []
         for sample_id, plate_count in plate_counts.items():
             if plate_count < self.min_n_cell_line_plates:
                 logger.info("Dropping all plates for sample {}".format(sample_id))
-                screen = screen.subset(screen.sample_ids != sample_id).to_screen()
+                samples_to_drop.append(sample_id)
+
+        if samples_to_drop:
+            # drop in one step: to_screen() renumbers the sample ids
+            screen = screen.subset(~np.isin(screen.sample_ids, samples_to_drop)).to_screen()
 
         return screen
 
